@@ -127,7 +127,14 @@ fn similar_names_library(r: &mut Rng) -> Vec<(String, String)> {
         .iter()
         .map(|k| {
             let dir = crate::oracle::md::dir_of(k);
-            let mut text = if r.chance(3, 4) { format!("# Title of {}\n\n", k.replace('/', " ")) } else { String::from("plain start\n\n") };
+            // most notes start with a heading; some with one that has no text (a bare `#`, an image only): the
+            // title is then the empty string, and that is what links to the note get
+            let mut text = match r.below(8) {
+                0 => String::from("plain start\n\n"),
+                1 => String::from("#\n\n"),
+                2 => String::from("# ![](img/only.png)\n\n"),
+                _ => format!("# Title of {}\n\n", k.replace('/', " ")),
+            };
             for t in chosen.iter().chain(std::iter::once(&"gone/x")) {
                 if r.chance(2, 3) {
                     let url = md::rel_url(t, &dir);
